@@ -33,3 +33,25 @@ Proof. reflexivity. Qed.
 
 Lemma no_mutable_package_state : forallb (fun v => match v with (_, _, c) => String.eqb c "fixed" end) go_package_vars = true.
 Proof. reflexivity. Qed.
+
+(* Calls that can write through their target (append, copy, delete, reflect.Append/AppendSlice/Copy, sort.*, and methods named
+   Set*, Store, Swap, Add, Put, Lock, Do, Write* ... - go_mutating_calls): on the evaluation path every one of them targets a
+   container the function made itself (make, a composite literal, T(nil), reflect.MakeSlice/MakeMap, MapKeys, append of those).
+   Filter.Execute builds its result with reflect.Append / SetMapIndex on containers it made; the quantifier sorts the key list it
+   obtained from MapKeys and appends bindings to its own copy of the option list. A cache behind a method (sync.Map.Store,
+   sync.Pool.Put), an in-place edit of the input (rvalue.Index(i).Set, sort of the caller's slice) or an append to the caller's
+   option slice stops this lemma. *)
+Definition c_fn (c : string * string * string * string * string) : string := match c with (_, fn, _, _, _) => fn end.
+Definition c_callee (c : string * string * string * string * string) : string := match c with (_, _, k, _, _) => k end.
+Definition c_class (c : string * string * string * string * string) : string := match c with (_, _, _, _, k) => k end.
+Definition evaluation_path_shared_calls :=
+  filter (fun c => existsb (String.eqb (c_fn c)) go_eval_reachable && negb (existsb (String.eqb (c_fn c)) option_constructors)
+                   && negb (String.eqb (c_class c) "fresh")) go_mutating_calls.
+
+Lemma evaluation_path_mutates_only_its_own_containers : evaluation_path_shared_calls = [].
+Proof. reflexivity. Qed.
+
+(* non-vacuity: the evaluation path is seen to build containers of its own through such calls (whichever function does it) *)
+Lemma evaluation_path_builds_fresh_containers :
+  existsb (fun c => existsb (String.eqb (c_fn c)) go_eval_reachable && String.eqb (c_class c) "fresh") go_mutating_calls = true.
+Proof. reflexivity. Qed.
